@@ -50,6 +50,9 @@ CLAIMS = {
          "writeLoop answers a request with a nil result only after an underlying Write of that request returned nil, never re-enqueues a request and finishes each dequeued request before the next one (ghost variables `written`/`pending`; so accepted writes reach the successive connections in dequeue order), and returns only with the transport's context done (after the redial budget is exhausted it cancels, so later writes fail instead of blocking); "
          "readLoop never forwards a control ping; the redial closure dials with the original config, the same transport id and the reconnect flag set.",
          "NOT decided: FIFO order of writeReqCh across concurrent writers (channel order), 'at most maxReconnectAttempts dials' (not counted), timing. Assumed: a successful Connector.Connect returns a non-nil transport; Transport.cancel is the cancel function of Transport.ctx (cancelof).", "6/C18"),
+ 'C16': ("Contract proof of end-to-end call correlation: Conn.call registers a fresh ack channel keyed by its call id before the call can be sent and returns only an ack bearing that id; subscribeReply/receiveReplyCall/SendCallAndWaitReplayCall return only a reply whose RequestCallID is the id of the call they sent (ghost variable bound to the id drawn from randomString); "
+         "SendCall/SendReplyCall send exactly the caller's fields under the fresh id and report that id; the two dispatch loops deliver only to the channel registered under the message's id (table monitor invariants + channel invariants), delete exactly that entry, never send under the lock, look every reply up before taking the next message, and the wire dispatcher never drops an ack/call because a consumer is behind (no default arm).",
+         "NOT decided: once-each / arrival order of the inbox channels, behaviour across a reconnect between call and ack, freshness of call ids (randomString is an assumed-pure package variable; uuid randomness).", "6/C16"),
 }
 NA_REASON_DEFAULT = "check not built yet (framework under construction; see DESIGN.md section 8)"
 NA = {}
